@@ -998,6 +998,40 @@ func registerSync(in *Interp) {
 		}
 		return nil
 	})
+	// sync.Pool: Put keeps the object, Get hands the most recent one back (never drops),
+	// or calls New. The kept objects are state of the current execution (a pool is
+	// usually a package variable, and those are shared by all paths).
+	poolNew := func(ps Struct) Value {
+		st := in.Prog.ImportedPackage("sync").Type("Pool").Type().Underlying().(*types.Struct)
+		for i := 0; i < st.NumFields(); i++ {
+			if st.Field(i).Name() == "New" {
+				return ps[i]
+			}
+		}
+		return nil
+	}
+	in.reg("(*sync.Pool).Put", func(th *Thread, fn *ssa.Function, a []Value) Value {
+		th.stub("sync.Pool: keeps every object, hands the most recent one back")
+		if th.ex.pools == nil {
+			th.ex.pools = map[*Value][]Value{}
+		}
+		k := a[0].(*Value)
+		th.ex.pools[k] = append(th.ex.pools[k], a[1])
+		return nil
+	})
+	in.reg("(*sync.Pool).Get", func(th *Thread, fn *ssa.Function, a []Value) Value {
+		k := a[0].(*Value)
+		if items := th.ex.pools[k]; len(items) > 0 {
+			th.ex.pools[k] = items[:len(items)-1]
+			return items[len(items)-1]
+		}
+		if f := poolNew((*k).(Struct)); f != nil {
+			if c, isClosure := f.(*Closure); !isClosure || c != nil {
+				return th.call(nil, 0, f, nil)
+			}
+		}
+		return Iface{}
+	})
 	sm := func(th *Thread, v Value) *SyncMap {
 		p := v.(*Value)
 		if p == nil {
